@@ -202,6 +202,28 @@ def long_structures(R, pid, logic):
     return bad
 
 
+# ---------- long quantified subformulas that share a long prefix ----------
+def long_prefix_cases(rng, n):
+    """(structure, CTL state formula) with two DIFFERENT quantified subformulas whose printed forms agree on their first 40+
+    characters (Q(x U a) next to Q(x U b) for a long propositional x), one of them with an empty or full truth set, combined
+    non-monotonically: anything that identifies subformulas by a truncated / hashed printed form (fresh label names, memo keys)
+    confuses them.  The formulas are CTL, so all three checkers apply."""
+    out = []
+    aps = ('p', 'q', 'r')
+    while len(out) < n:
+        k = rng.randint(3, 5)
+        x = (rng.choice(['and', 'or']),) + tuple((rng.choice(['or', 'and']), ('ap', rng.choice(aps)), rng.choice([('ap', rng.choice(aps)), ('not', ('ap', rng.choice(aps)))]))
+                                                for _ in range(k))
+        a, b = rng.sample([('ap', 'p'), ('ap', 'q'), ('ap', 'r'), ('not', ('ap', 'p')), ('false',), ('true',)], 2)
+        q1, q2 = rng.choice('AE'), rng.choice('AE')
+        o = rng.choice(['U', 'U', 'R', 'G', 'F'])
+        mk = (lambda q, t: (q, (o, x, t))) if o in 'UR' else (lambda q, t: (q, (o, ('and', x, t))))
+        g1, g2 = mk(q1, a), mk(q2, b)
+        f = rng.choice([('and', g1, g2), ('and', g1, ('not', g2)), ('or', ('not', g1), g2), ('imp', g1, g2), ('and', g2, g1)])
+        out.append((rand_kripke(rng, rng.randint(1, 3), aps=aps), f))
+    return out
+
+
 # ---------- wide connectives: Or/And are VARIADIC (the parsers fold 'a or b or c' into one node) ----------
 def wide_cases(rng, n, kind):
     """(structure, formula) cases whose or/and nodes have 3-5 operands (1 operand in a few cases), every operand a distinct
